@@ -522,7 +522,7 @@ func (e *Engine) assignTo(st *State, lhs ast.Expr, v *Val, pos token.Pos) []*Sta
 			return []*State{st}
 		}
 		if _, isVar := obj.(*types.Var); isVar && obj.Parent() == obj.Pkg().Scope() {
-			loc := "g:" + obj.Name()
+			loc := "g:" + GlobalName(obj)
 			if v != nil && v.Kind == KAlloc && v.Path == "" && v.Type != nil {
 				if _, isMap := v.Type.Underlying().(*types.Map); isMap {
 					v.Path = loc // a fresh map installed in a package variable is that variable's map
